@@ -28,9 +28,14 @@
     eager_reader_drops_a_byte     the reader shape of seeded change C13-m4 does not
     lex_token_aligned, pop_token_aligned   one cut anywhere: `safeSplit a b` ⇒ chunked = whole
     unsafe_split_witnesses        one proved witness per class of the finding
+  C13R3:
+    lex_token_aligned_iff         one cut: chunked = whole  IFF  safeSplit (both directions, all texts)
+    lex_cuts_aligned, pop_cuts_aligned   any number of cuts, each safe w.r.t. all that follows
+    literal_across_chunks, literal_through_reader   a plain multi-line literal over any aligned chunks = ONE token, every byte
 -/
 import BlocV.Proofs.Lemmas.Lex
 import BlocV.Proofs.Lemmas.LexReaders
+import BlocV.Proofs.Lemmas.LexLiteral
 
 namespace BlocV.C13
 open BlocV BlocV.Lex
@@ -289,11 +294,11 @@ example : (popStream true (lineReader chunkMax exCrlf)).length = 14 := by decide
   beginning-of-line flag of the fresh buffer does not change the first token of the second. It is decidable and is
   defined by the whole-text matcher only (`pick` on `r ++ b` against `pick` on `r`), never by the chunked scanner.
 
-  FULL STATEMENT aimed at:   lexChunks [a, b] = lexWhole (a ++ b)  ↔  safeSplit a b   (a ≠ [], both NUL-free)
-  Proved: `←` (`lex_token_aligned`, all texts). NOT proved: `→` (needs: a match no longer than the fragment is not
-  affected by what follows the fragment — `matchLens` prefix lemma — and then a crossing match is longer than any
-  token of the chunked scan); it is TESTED on every two-chunk case of the check (driver `tok … note=safe:eq |
-  unsafe:ne`, 0 exceptions on ~60 000 cases per run) and witnessed class by class in `unsafe_split_witnesses`. -/
+  `lex_token_aligned_iff` (C13R3): for a non-empty NUL-free `a` and NUL-free `b`,
+      lexChunks [a, b] = lexWhole (a ++ b)  ↔  safeSplit a b
+  both directions for ALL texts — `safeSplit` is exactly the region in which one cut does not matter, and its
+  complement exactly the region of the finding `C13.unaligned_chunk_splits_token` for two chunks. `lex_cuts_aligned`:
+  any number of cuts, each safe with respect to everything that follows it (`safeCuts`). -/
 
 /-- **Chunked = whole on a safe split**, for every pair of fragments: any start condition at the cut (inside a
 literal, inside a comment), any position of the cut in its line. -/
@@ -313,6 +318,33 @@ example : safeSplit [97, 32, 61, 32, 49, 50, 59] [32, 98, 32, 61, 32, 51, 59] = 
     safeSplit [34, 97, 92] [110, 98, 34] = true := by decide +kernel
 example : lexChunks [[97, 32, 61, 32, 49, 50, 59], [32, 98, 32, 61, 32, 51, 59]] =
     lexWhole ([97, 32, 61, 32, 49, 50, 59] ++ [32, 98, 32, 61, 32, 51, 59]) := lex_token_aligned _ _ (by decide +kernel)
+
+/-- **The exact region for one cut.** `→`: if the first tokens agree they are the same rule choice (rule codes are
+≥ 256, the default rule returns a byte: `tok_inj`), so a failing `noCross`/`bolOk` shows up as a differing token. -/
+theorem lex_token_aligned_iff (a b : Bytes) (ha : a ≠ []) (na : noNul a = true) (nb : noNul b = true) :
+    lexChunks [a, b] = lexWhole (a ++ b) ↔ safeSplit a b = true :=
+  safeSplit_iff a b ha na nb
+
+example : ¬ lexChunks [[49, 101, 43], [53]] = lexWhole ([49, 101, 43] ++ [53]) :=
+  fun h => absurd ((lex_token_aligned_iff _ _ (by decide) (by decide) (by decide)).mp h) (by decide +kernel)
+
+/-- **Any number of cuts.** Every chunk non-empty and NUL-free, no rule matching across the end of a chunk into the
+rest of the text, beginning-of-line immaterial at every cut: the chunked scanner gives the tokens of the whole text.
+(`lex_line_aligned` is the case in which every cut follows a '\n'.) -/
+theorem lex_cuts_aligned (frags : List Bytes) (h : safeCuts frags = true) : lexChunks frags = lexWhole frags.flatten :=
+  lexChunksFrom_safe frags .initial h
+
+theorem pop_cuts_aligned (keepNl : Bool) (frags : List Bytes) (h : safeCuts frags = true) :
+    popStream keepNl frags = specStream keepNl frags.flatten := by
+  simp only [popStream, specStream, lex_cuts_aligned frags h]
+
+/-- `x = |"ab|c\|n"|; y|  = 1` — five chunks, cuts before a literal, inside it, after the `\` of `\n`, after it, after an identifier. -/
+example : safeCuts [[120, 32, 61, 32], [34, 97, 98], [99, 92], [110, 34], [59, 32, 121], [32, 61, 32, 49]] = true := by decide +kernel
+example : lexChunks [[120, 32, 61, 32], [34, 97, 98], [99, 92], [110, 34], [59, 32, 121], [32, 61, 32, 49]] =
+    lexWhole [120, 32, 61, 32, 34, 97, 98, 99, 92, 110, 34, 59, 32, 121, 32, 61, 32, 49] :=
+  lex_cuts_aligned _ (by decide +kernel)
+/-- each cut of `1|2|3` is unsafe, and a match may cross SEVERAL chunks: `safeCuts` looks at all that follows. -/
+example : safeCuts [[49], [50], [51]] = false ∧ safeCuts [[120, 32], [49], [50]] = false := by decide +kernel
 
 /-- An unsafe split on which the chunked and the whole-text token sequences really differ. -/
 def UnsafeWitness (a b : Bytes) : Prop := safeSplit a b = false ∧ lexChunks [a, b] ≠ lexWhole (a ++ b)
@@ -337,6 +369,46 @@ theorem unsafe_split_witnesses :
     UnsafeWitness [48, 120] [49, 70] ∧                          -- hexadecimal       0x|1F
     UnsafeWitness [49, 46] [53]                                 -- double            1.|5
     := by decide +kernel
+
+/-! ## A literal spanning many chunks (C13R3; section 3 of the C13R2 task)
+
+  `Parser::next_token` reassembles LITERALBEG / LITERALSTR… / LITERALEND into one token across ANY number of reader
+  chunks: the start condition LITERAL and the parser's `_string_buffer` survive the chunk switch. Explicitly: -/
+
+/-- **One literal, any number of aligned chunks.** A string literal `"content"` whose content is plain (no `"`, no
+`\`, no NUL; line breaks — also runs of EMPTY lines, i.e. chunks that are just "\n" — are plain), delivered in any
+line-aligned fragmentation, reaches the parser as ONE `TOKEN_LITERALSTR` carrying every byte of it. -/
+theorem literal_across_chunks (keepNl : Bool) (frags : List Bytes) (content : Bytes) (hal : aligned frags = true)
+    (hfl : frags.flatten = 34 :: content ++ [34]) (hp : content.all plainByte = true) :
+    popStream keepNl frags = [⟨tLITERALSTR, 34 :: content ++ [34]⟩] := by
+  have hnn : noNul frags.flatten = true := by
+    rw [hfl]
+    simp only [noNul, List.cons_append, List.all_cons, List.all_append, List.all_nil, Bool.and_true, Bool.and_eq_true]
+    refine ⟨by decide, ?_, by decide⟩
+    rw [List.all_eq_true] at hp ⊢
+    intro x hx
+    have := hp x hx
+    simp only [plainByte, Bool.and_eq_true] at this
+    exact this.2
+  rw [pop_line_aligned keepNl frags hal (noNul_of_flatten frags hnn), hfl]
+  exact specStream_literal keepNl content hp
+
+/-- … and through the library's readers, CRLF or LF: the text `"content"` (lines ≤ 1023 bytes) read by
+`lineReader 1023` (= StringReader = ReadFile = the include reader, `readers_same_chunks`). -/
+theorem literal_through_reader (keepNl : Bool) (text content : Bytes) (hn : noNul text = true)
+    (hfit : LinesFit chunkMax (stripCr text)) (ht : stripCr text = 34 :: content ++ [34]) (hp : content.all plainByte = true) :
+    popStream keepNl (lineReader chunkMax text) = [⟨tLITERALSTR, 34 :: content ++ [34]⟩] := by
+  rw [(layout_independent_partial keepNl text hn hfit).1, ht]
+  exact specStream_literal keepNl content hp
+
+/-- `"a⏎⏎⏎b"`: three line breaks, two EMPTY lines, chunks `"a⏎` `⏎` `⏎` `b"` — every line break is kept (seeded change
+C13-m6 skips the second of two consecutive "\n" chunks), with LF and with CRLF line ends. -/
+example : popStream true [[34, 97, 10], [10], [10], [98, 34]] = [⟨tLITERALSTR, [34, 97, 10, 10, 10, 98, 34]⟩] :=
+  literal_across_chunks true _ [97, 10, 10, 10, 98] (by decide) (by decide) (by decide)
+example : lineReader chunkMax [34, 97, 13, 10, 13, 10, 13, 10, 98, 34] = [[34, 97, 10], [10], [10], [98, 34]] := by decide
+example : popStream true (lineReader chunkMax [34, 97, 13, 10, 13, 10, 13, 10, 98, 34]) = [⟨tLITERALSTR, [34, 97, 10, 10, 10, 98, 34]⟩] :=
+  literal_through_reader true _ [97, 10, 10, 10, 98] (by decide)
+    ((lineReader_aligned chunkMax (by decide) _).mp (by decide)) (by decide) (by decide)
 
 /-! ## Where it fails: the negation of the full statement, clause by clause
 
